@@ -1031,6 +1031,14 @@ class Engine:
     def ex_Dict(self, e, st):
         if not e.keys:
             return [(st, V('dict0'))]
+        if all(isinstance(k, ast.Constant) for k in e.keys):
+            out = []
+            for st1, vs in self.eval_seq(list(e.values), st):
+                if isinstance(vs, Raised):
+                    out.append((st1, vs))
+                else:
+                    out.append((st1, V('cdict', py={k.value: v for k, v in zip(e.keys, vs)})))
+            return out
         raise Unsupported(e, 'dict literal')
 
     def ex_JoinedStr(self, e, st):
@@ -1842,6 +1850,12 @@ class Engine:
             return outs
         if obj.k == 'obj' and self.contract.opts.get('opaque_algebra'):
             return [(st, V('obj', oid='item!%d' % next(self.counter)))]
+        if obj.k == 'cdict':
+            if idx.k == 'str' and idx.py is not None:
+                if idx.py in obj.py:
+                    return [(st, obj.py[idx.py])]
+                return [(st, Raised(self.make_exc('KeyError', node=node)))]
+            raise Unsupported(node, 'symbolic key into a constant dict')
         if obj.k == 'any' and idx.k == 'int':
             t = VV.tag_of(obj.z)
             outs = []
